@@ -5,7 +5,7 @@ func init() {
 		info: PropInfo{
 			Bounds: []string{
 				"extended-ID checks: zoom quadruples (h1,v1,h2,v2) over a sample (quick 40, thorough all with zooms in {0,1,2,10,25,26,35} and |difference| arbitrary); all indices symbolic, both signs for f; both argument orders and the reflexive call in one harness",
-				"array forms: 0..2 x 0..2 elements",
+				"array forms: 0..2 x 0..2 elements, mixed zooms inside a list in both orders (coarse first / fine first)",
 				"radix-tree checks: zoom pairs z1,z2 in 1..4 (quick) / 1..6 (thorough) with |z1-z2| <= 2, plus the sub-metre zooms 25..27 paired within +-1; the tree (multidimensional-radix-tree) is executed from its SSA, child tables indexed by symbolic branch paths use a hit/miss overlay model",
 			},
 			Outside: []string{"tree checks at zooms 7..24 and beyond 27 (depth-linear but each level adds solver work)", "lists longer than 2", "spatial IDs outside +-2^24 m (documented precondition)"},
@@ -31,13 +31,18 @@ func init() {
 			}
 			for n1 := 0; n1 <= 2; n1++ {
 				for n2 := 0; n2 <= 2; n2++ {
-					in := mk("detector", "VerifC05ExtArray", cs("n1", n1, "n2", n2, "h", 3, "v", 2))
-					in.Unwind = 40
-					is = append(is, in)
-					in = mk("detector", "VerifC05TreeArray", cs("n1", n1, "n2", n2, "z", 2))
-					in.Unwind = 80
-					in.MaxSeconds = 1500
-					is = append(is, in)
+					for ord := 0; ord <= 1; ord++ {
+						if ord == 1 && n1+n2 < 2 {
+							continue
+						}
+						in := mk("detector", "VerifC05ExtArray", cs("n1", n1, "n2", n2, "h", 3, "v", 2, "ord", ord))
+						in.Unwind = 40
+						is = append(is, in)
+						in = mk("detector", "VerifC05TreeArray", cs("n1", n1, "n2", n2, "z", 2, "ord", ord))
+						in.Unwind = 80
+						in.MaxSeconds = 1500
+						is = append(is, in)
+					}
 				}
 			}
 			mz := 4
@@ -69,7 +74,7 @@ func init() {
 				{Harness: "VerifC05Ext", PkgDir: "detector", Unwind: 40, Case: cs("h1", 20, "v1", 25, "h2", 21, "v2", 26), Inputs: map[string]string{"x1": "85263", "y1": "65423", "f1": "5", "x2": "170526", "y2": "130846", "f2": "11"}},
 				{Harness: "VerifC05Tree", PkgDir: "detector", Unwind: 80, Case: cs("z1", 3, "z2", 4, "sym", 1), Inputs: map[string]string{"x1": "5", "y1": "2", "f1": "-2", "x2": "10", "y2": "5", "f2": "-4"}},
 				{Harness: "VerifC05Tree", PkgDir: "detector", Unwind: 80, Case: cs("z1", 26, "z2", 26, "sym", 0), Inputs: map[string]string{"x1": "0", "y1": "0", "f1": "0", "x2": "0", "y2": "0", "f2": "1"}},
-				{Harness: "VerifC05TreeArray", PkgDir: "detector", Unwind: 80, Case: cs("n1", 1, "n2", 1, "z", 2), Inputs: map[string]string{"x0": "1", "y0": "1", "f0": "1", "x1": "3", "y1": "3", "f1": "3"}},
+				{Harness: "VerifC05TreeArray", PkgDir: "detector", Unwind: 80, Case: cs("n1", 1, "n2", 1, "z", 2, "ord", 0), Inputs: map[string]string{"x0": "1", "y0": "1", "f0": "1", "x1": "3", "y1": "3", "f1": "3"}},
 			}
 		},
 	}
